@@ -27,7 +27,7 @@ ASSUMPTIONS = ['a window end that coincides with a tabulated wavelength may go e
                'an empty window (no wavelength strictly inside) is outside the quantifier and not generated',
                'requested wavelengths exactly half-way between two tabulated ones are not generated']
 PROBES = ['window_end_on_node_included', 'window_end_on_node_excluded', 'single_wavelength_window', 'default_window', 'chunk_size_1',
-          'chunk_smaller_than_window', 'multi_aperture', 'cube_slice_checked', 'cube_memmap', 'cube_request_between', 'cube_request_outside', 'prelude_epoch']
+          'chunk_smaller_than_window', 'multi_aperture', 'cube_slice_checked', 'cube_memmap', 'cube_request_between', 'cube_request_outside', 'prelude_epoch', 'rerun_over_leftovers']
 
 
 def budgets(tier):
@@ -64,7 +64,9 @@ def generate(rng, tier, idx):
     hi = sw[k] * 1.001 if (k == n - 1 or sw[k + 1] > sw[k] * 1.001) else None
     if lo and hi:
         windows.append([lo, hi, 'single'])
-    sc = {'world': w, 'listing_seed': rng.randrange(1 << 30), 'steps': [{'window': x, 'chunks': 'all'} for x in windows]}
+    sc = {'world': w, 'listing_seed': rng.randrange(1 << 30),
+          # 'rerun': chunk sizes run a second time with overwrite=True WITHOUT clearing convolved/ (left-overs of the previous run)
+          'steps': [{'window': x, 'chunks': 'all', 'rerun': [rng.randint(1, max(1, w['n_wav'])) for _ in range(rng.choice([0, 1, 2]))]} for x in windows]}
     # cube part
     cube = {'asc': rng.random() < 0.5, 'memmap': rng.random() < 0.5, 'requests': [], 'n_ap': rng.randint(1, 3)}
     for _ in range(rng.randint(2, 4)):
@@ -132,11 +134,17 @@ def _execute(sc, sim, out):
         strict = [x for x in sw if lo is None or (lo < x < hi)]
         incl = [x for x in sw if lo is None or (lo <= x <= hi)]
         chunks = (list(range(1, n_wav + 1)) + [None]) if st['chunks'] == 'all' else st['chunks']
+        chunks = [(c, False) for c in chunks] + [(c, True) for c in st.get('rerun', [])]
         digests = {}
         bnd = set()
-        for chunk in chunks:
-            shutil.rmtree(os.path.join(d, 'convolved'), ignore_errors=True)
+        for chunk, over in chunks:
             kw = {}
+            if over and os.path.isdir(os.path.join(d, 'convolved')):
+                kw['overwrite'] = True          # left-overs of the previous run (same window) are still there
+                out.probe('rerun_over_leftovers')
+                sim.fired('rerun_over_leftovers')
+            else:
+                shutil.rmtree(os.path.join(d, 'convolved'), ignore_errors=True)
             if chunk is not None:
                 kw['max_ram'] = (chunk + 0.5) * 8 * W.n_models * W.n_ap / 1024. ** 3
                 if chunk == 1:
@@ -146,7 +154,8 @@ def _execute(sc, sim, out):
             if lo is not None:
                 kw['wav_min'] = lo * u.micron
                 kw['wav_max'] = hi * u.micron
-            what = 'window %s, chunk size %s' % ('default' if lo is None else '[%.6g, %.6g]' % (lo, hi), 'default' if chunk is None else chunk)
+            what = 'window %s, chunk size %s%s' % ('default' if lo is None else '[%.6g, %.6g]' % (lo, hi), 'default' if chunk is None else chunk,
+                                                   ', re-run with overwrite=True over the previous run\'s files' if over else '')
             r = pipe.call(pipe.convolve_model_dir_monochromatic, d, **kw)
             out.compared('convolver-run')
             if r[0] != 'ok':
@@ -201,7 +210,7 @@ def _execute(sc, sim, out):
             if bad:
                 out.violate('contents', bad)
                 break
-            digests[chunk] = h.hexdigest()
+            digests[(chunk, over)] = h.hexdigest()
             for x in incl:
                 if x not in strict:
                     inc = any(abs(x - y) <= 1e-6 * x for y in wl)
@@ -303,6 +312,8 @@ def lowerings(sc, viol=None):
     if sc['steps'] and sc.get('cube') is not None:
         yield dict(sc, steps=[])
     for i, st in enumerate(sc['steps']):
+        if st.get('rerun'):
+            yield dict(sc, steps=sc['steps'][:i] + [dict(st, rerun=[])] + sc['steps'][i + 1:])
         if st['chunks'] == 'all':
             n = sc['world']['n_wav']
             for c in list(range(1, n + 1)) + [None]:
